@@ -26,8 +26,8 @@ CHECKS = {
          "Coq proof over all yield sites of the model + exhaustive abandonment runs"),
  "C14": ("Pong theorem on the model (each Ping event is immediately preceded by its Pong while no Close was sent); streams with pings anywhere on the real client.",
          "Coq proof + correspondence"),
- "C15": ("Timer theorems over integer ticks (poll spacing, ping periods, unresponsive, close timeout), also with the wake-up hypothesis derived from a selector that honours its timeout; the real loop on a virtual clock, under scripted wake-ups and under a simulated selector that sleeps exactly as long as it is asked to, over the full parameter grid, time-stamped traces compared with the model and judged against the bounds.",
-         "Coq proof over Z ticks + virtual-clock correspondence"),
+ "C15": ("Timer theorems over integer ticks (poll spacing, ping periods, unresponsive, close timeout), also with the wake-up hypothesis derived from a selector that honours its timeout; the step functions tied to the running _check_* methods and _regular by a regenerated table (kernel-checked on every run); the real loop on a virtual clock, under scripted wake-ups and under a simulated selector that sleeps exactly as long as it is asked to, over the full parameter grid, time-stamped traces compared with the model and judged against the bounds.",
+         "Coq proof over Z ticks + regenerated decision table + virtual-clock correspondence"),
  "C06": ("Bookkeeping theorems on the model with zlib as an oracle (which context sees which bytes in which order on the sending and on the receiving side of the connection model, resets, a new context after a stream that ended, RSV1 placement, parameter parsing); an independent RFC 7692 peer built on plain zlib objects against the real client for all 256 parameter combinations. Partial: DEFLATE itself is not verified.",
          "Coq proof of the bookkeeping with zlib as a Section-variable oracle + differential testing against an independent RFC 7692 peer"),
  "C10": ("Theorems on the model's URL reading (parse/render round trip: request target and Host header are functions of the URL's components), request builder and reply decision (Ready iff 101, Upgrade: websocket and matching accept; rendering-independence), and at run level: a Ready event implies a reply carrying base64(sha1(base64(random 16 bytes) ++ GUID)) of this attempt, with SHA-1 and base64 executable inside the model (base64 round trip, lengths, header-safe alphabet proved) and compared with hashlib/base64 and the real object on every run; requests parsed by a strict parser, replies rendered from intent in every spelling. The case-insensitive accept comparison is a known finding (KF-D). Partial: nothing is claimed about SHA-1 as a hash function.",
